@@ -335,6 +335,12 @@ Section TB.
         unfold obj_refs. rewrite Eo. left. reflexivity. }
       lia.
   Qed.
+  Lemma tb_take nl : TBJ s J (fst (ex_take s i nl)).
+  Proof.
+    unfold ex_take. destruct (get_slot s i) as [oi|]; [|cbn [fst na0]; na]. destruct (_ || _); [|cbn [fst na0]; na].
+    destruct (ohs oi) as [|v [|n [|]]]; try (cbn [fst na0]; na); destruct nl; try (cbn [fst na0]; na); cbn [fst];
+      (apply tb_set_shared; [intros o9 [= <-]; destruct (okind oi =? 4); reflexivity|reflexivity]).
+  Qed.
   Lemma tb_bit_assign a w : TBJ s J (fst (ex_bit_assign s i a w)).
   Proof.
     unfold ex_bit_assign. destruct (slot_1 s i 5) as [h|]; [|cbn [fst na0]; na]. destruct (slot_1 s a 5); [|cbn [fst na0]; na].
@@ -618,7 +624,7 @@ Theorem exec_excl s p : Inv s -> Excl s -> Excl (fst (exec s p)).
 Proof.
   intros I X. apply (excl_assemble s p); [exact I|exact X|apply exec_rawA; exact I|].
   unfold exec, opJ, opT. destruct p as [cd a b c tid data zb zc]. cbn [o_code o_a o_b o_c o_data o_zb o_zc].
-  do 26 (destruct cd as [|cd]; [
+  do 28 (destruct cd as [|cd]; [
     first
     [ (* no operand *)
       solve [apply (TBJ_weaken _ (fun _ => False)); [intros j [[]|(Hc & _)]; discriminate Hc|first [apply tb_new_std | apply tb_new_cust | apply tb_new_mut]; assumption]]
@@ -631,7 +637,7 @@ Proof.
              first [apply tb_clone | apply tb_slice | apply tb_drop | apply tb_into_mutable | apply tb_freeze
                    | apply tb_write | apply tb_into_vec | apply tb_wrap_bits | apply tb_finish | apply tb_claim
                    | apply tb_truncate | apply tb_bit_assign | apply tb_export | apply tb_import
-                   | apply tb_stream_next | apply tb_unary
+                   | apply tb_stream_next | apply tb_unary | apply tb_take
                    | (destruct (slot_k s a 2); apply tb_write)]; assumption]]
     ]|]).
   apply tbj_of_excl. exact X.
